@@ -10,7 +10,7 @@ for id in $IDS; do
   S=$(mktemp -d /tmp/seeded-XXXXXX)
   rsync -a --exclude .git /repo/ $S/ && ( cd $S && patch -p1 -s < /verif/$d/patch.diff ) || { echo "$id PATCH-FAILED"; rm -rf $S; continue; }
   for Q in $PROPS; do
-    out=$(VERIF_REPO=$S bin/check $Q $TIER 2>&1); rc=$?
+    out=$(VERIF_MIN_BUDGET=${VERIF_MIN_BUDGET:-20s} VERIF_REPO=$S bin/check $Q $TIER 2>&1); rc=$?
     oracles=$(echo "$out" | grep -o "oracle=[^ ]*" | sort -u | tr '\n' ' ')
     echo "$id $Q $TIER exit=$rc $oracles"
     python3 - "$d/meta.json" "$Q" "$TIER" "$rc" "$oracles" <<'PY'
